@@ -7,7 +7,7 @@ From Utp Require Import Base.Prelude Wire.SeqNr Rtt.Rtte.
 From Utp Require Import Wire.Header Mtu.SegSizes.
 From Utp Require Import Rx.Rx Tx.Segments Tx.Ring.
 From Utp Require Import Cubic.F64 Cubic.Cubic Cubic.Libm.
-From Utp Require Import Sock.Dispatcher.
+From Utp Require Import Sock.Dispatcher Sock.DispObs.
 From Utp Require Import Conn.Recovery Conn.Msg Conn.VSockRec Conn.VSock Conn.VSockRun Conn.VObs.
 
 Extraction Language OCaml.
@@ -24,5 +24,5 @@ Extraction "model"
   vsock_new_cubic vtrace_cubic retransmission_timeout roundtrip_time cubic_window cubic_sshthresh
   ss_new ss_trace mtu_search c14_ok c14_search_ok segsizes_cfg_ok mtu_d3 c14_d3_ok
   IPV4_HEADER IPV6_HEADER UDP_HEADER
-  dstate_new dstep drun dtrace cleanup_accept_queue push_acceptor
+  dstate_new dstep drun dtrace cleanup_accept_queue push_acceptor c12_step_ok c13_step_ok
   cubic_new cubic_trace c15_obs_ok c15_obs_core f64_view BETA_CUBIC C_CUBIC cbrt_cr.
